@@ -233,11 +233,29 @@ def run_shard(shard, tier, seed):
     st = Stats()
     maxlines = 0
     seen = set()
+    udp = None
+    if fam == "b":
+        from twisted.names import dns
+        ctl = _Controller()
+        udp = dns.DNSDatagramProtocol(ctl, reactor=object())
+        udp.startProtocol()
     for i, (tag, data) in enumerate(inputs(fam, tier)):
         if i % n != j:
             continue
         st.evaluations += 1
         outcome, lines, where = decode(data)
+        if udp is not None and outcome in ("message", "EOFError", "ValueError"):
+            # the UDP protocol must survive every packet the decoder classifies as a message or as malformed
+            del ctl.got[:]
+            try:
+                udp.datagramReceived(data, ("10.0.0.1", 53))
+            except Exception as e:
+                st.violation("DNSDatagramProtocol.datagramReceived:raises:%s-on-%s" % (type(e).__name__, outcome),
+                             "input %s" % data.hex(), {"family": "udp", "data": data.hex()})
+            else:
+                if (outcome == "message") != (len(ctl.got) == 1):
+                    st.violation("DNSDatagramProtocol.datagramReceived:%s-but-%d-messages-delivered" % (outcome, len(ctl.got)),
+                                 "input %s" % data.hex(), {"family": "udp", "data": data.hex()})
         if lines > maxlines:
             maxlines = lines
         st.outcome(outcome if outcome != "message" else ("message:empty" if where == 0 else "message:with-records"))
@@ -258,23 +276,9 @@ def through_protocols(st):
     """The protocols hand the datagram / the length-prefixed chunk to Message.fromStr unchanged: every seed is pushed
     through both and must reach the controller as one message (this pins the entry point the families use)."""
     from twisted.names import dns
-
-    class Controller:
-        def __init__(self):
-            self.got = []
-
-        def messageReceived(self, m, proto, addr=None):
-            self.got.append(m)
-
-        def connectionMade(self, proto):
-            pass
-
-        def connectionLost(self, proto):
-            pass
-
     for label, s, _, _ in seeds():
         st.evaluations += 1
-        c = Controller()
+        c = _Controller()
         u = dns.DNSDatagramProtocol(c, reactor=object())
         u.startProtocol()
         u.datagramReceived(s, ("10.0.0.1", 53))
@@ -285,9 +289,25 @@ def through_protocols(st):
         ref.fromStr(s)
         ref.maxSize = 0
         if len(c.got) != 2 or not all(g == ref for g in c.got):
-            st.violation("harness-premise:protocols-do-not-decode-with-Message.fromStr",
-                         "seed %s: controller received %d messages" % (label, len(c.got)), {"family": "protocols", "data": s.hex()})
-        st.outcome("protocols:delivered")
+            # not a property violation: it only means the families no longer enter the decoder where the protocols do
+            st.outcome("protocols:entry-point-differs")
+            st.notes.append("NOTE C33: seed %s is not delivered unchanged by both protocols (%d messages)" % (label, len(c.got)))
+        else:
+            st.outcome("protocols:delivered")
+
+
+class _Controller:
+    def __init__(self):
+        self.got = []
+
+    def messageReceived(self, m, proto, addr=None):
+        self.got.append(m)
+
+    def connectionMade(self, proto):
+        pass
+
+    def connectionLost(self, proto):
+        pass
 
 
 class _Transport:
@@ -309,4 +329,17 @@ class _Transport:
 def replay(w):
     data = bytes.fromhex(w["data"])
     outcome, lines, where = decode(data)
-    return judge(w["family"], data, outcome, lines, where)
+    out = judge(w["family"], data, outcome, lines, where)
+    if w["family"] == "udp":
+        from twisted.names import dns
+        ctl = _Controller()
+        udp = dns.DNSDatagramProtocol(ctl, reactor=object())
+        udp.startProtocol()
+        try:
+            udp.datagramReceived(data, ("10.0.0.1", 53))
+        except Exception as e:
+            out.append(("DNSDatagramProtocol.datagramReceived:raises:%s-on-%s" % (type(e).__name__, outcome), data.hex()))
+        else:
+            if (outcome == "message") != (len(ctl.got) == 1):
+                out.append(("DNSDatagramProtocol.datagramReceived:%s-but-%d-messages-delivered" % (outcome, len(ctl.got)), data.hex()))
+    return out
